@@ -1,13 +1,14 @@
 """Orchestrator-side helpers of the regex group (C16, C17, C18): run the V specs on chunks of observations in
 parallel TLC processes, and read violations (invariant, last state's variables) from TLC's output.
 
-The V specs of this group have the variables (blk, i, culprit): one initial state per block of observations and
-one successor per observation, so that TLC's workers share the evaluation; the violating state therefore is the
+The V specs of this group have the variables (blk, i, culprit, failing): one initial state per block of observations
+and one successor per observation, so that TLC's workers share the evaluation; the violating state therefore is the
 *last* state of a two-state trace, which core.TlcResult does not extract."""
 from __future__ import annotations
 
 import concurrent.futures
 import json
+import os
 import pathlib
 import re
 from typing import Any, Dict, List, Optional, Sequence, Tuple
@@ -56,6 +57,8 @@ def validate(
 ) -> Tuple[List[Dict[str, Any]], List[List[int]]]:
     """Run the V spec over all observations.  Returns (violations with global 0-based index `n`, counters: one
     list of ints per chunk taken from the '@@PRINT@@ counts' line)."""
+    parallel = int(os.environ.get("VERIF_TLC_PARALLEL", parallel))  # to be gentle on a shared machine
+    workers = int(os.environ.get("VERIF_TLC_WORKERS", workers))
     if chunk is None:
         # as many chunks as parallel TLC processes, but neither tiny (JVM start) nor huge (JSON loading) ones
         chunk = min(4100, max(150, -(-len(obs) // parallel)))
@@ -86,11 +89,21 @@ def validate(
             m = re.search(r'counts",\s*(.*?)>>', line)
             if m:
                 counters.append([int(x) for x in re.findall(r"-?\d+", m.group(1))])
+        judged = set()
         for v in pv:
             i = int(v["vars"].get("i", "0"))
             if i <= 0:
                 raise core.MachineryFailure("%s: violation without an observation index: %s" % (what, v))
-            violations.append({"invariant": v["invariant"], "n": k * chunk + i - 1, "culprit": culprit_of(v["vars"], v["invariant"])})
+            if i in judged:
+                continue
+            judged.add(i)
+            # TLC reports the first violated invariant of a state only; the state variable `failing` (computed by the
+            # spec when it takes the observation up) names every clause the observation violates
+            names = re.findall(r'"(\w+)"', v["vars"].get("failing", "")) or [v["invariant"]]
+            if v["invariant"] not in names:
+                raise core.MachineryFailure("%s: reported invariant %s is not in failing = %s" % (what, v["invariant"], names))
+            for name in sorted(names):
+                violations.append({"invariant": name, "n": k * chunk + i - 1, "culprit": culprit_of(v["vars"], name)})
     return violations, counters
 
 
